@@ -24,6 +24,7 @@ type em struct {
 	loops    []loopCtx
 	inSwitch int
 	want     types.Type // expected type for an untyped nil
+	inCond   int        // > 0 inside the right operand of && / ||: no assignments can be hoisted
 }
 
 func isNilIdent(x ast.Expr) bool {
@@ -258,6 +259,9 @@ func (e *em) index(x *ast.IndexExpr) string {
 
 func (e *em) slice(x *ast.SliceExpr) string {
 	xt := T.info.Types[x.X].Type
+	if isByteArray(xt) {
+		return e.arraySlice(x)
+	}
 	if !isBytesLike(xt) || x.Slice3 {
 		e.fail(x, "slice of %v", xt)
 	}
@@ -291,6 +295,9 @@ func (e *em) unary(x *ast.UnaryExpr) string {
 				return "Go.Err." + n
 			}
 		}
+		if r, ok := e.foreignErrLit(x); ok {
+			return r
+		}
 	}
 	e.fail(x, "unary %s", x.Op)
 	return ""
@@ -300,7 +307,9 @@ func (e *em) binary(x *ast.BinaryExpr) string {
 	switch x.Op {
 	case token.LAND, token.LOR:
 		l := e.expr(x.X)
+		e.inCond++
 		r, rpre := e.captured(func() string { return e.expr(x.Y) })
+		e.inCond--
 		if len(rpre) == 0 {
 			if x.Op == token.LAND {
 				return "(" + l + " && " + r + ")"
@@ -354,6 +363,9 @@ func (e *em) binop(n ast.Node, op token.Token, lt types.Type, l, r string, y ast
 	}
 	if llt == "Go.F32" {
 		e.fail(n, "float32 operation %s", op)
+	}
+	if llt == "Go.Bytes" && op == token.ADD {
+		return "(" + l + " ++ " + r + ")" // string concatenation
 	}
 	switch op {
 	case token.ADD:
@@ -566,11 +578,23 @@ func (e *em) call(x *ast.CallExpr) string {
 					base = "(" + paren(base) + ".push " + paren(e.expr(a)) + ")"
 				}
 				return base
+			case "cap":
+				// byte slices are values without spare capacity: cap(b) is len(b)
+				at := T.info.Types[x.Args[0]].Type
+				if isBytesLike(at) && !isStringType(at) {
+					return "(Go.len " + paren(e.expr(x.Args[0])) + ")"
+				}
+				e.fail(x, "cap of %v", at)
 			case "make":
-				if isBytesLike(T.info.Types[x].Type) && len(x.Args) == 2 {
+				if isBytesLike(T.info.Types[x].Type) && len(x.Args) == 2 && isConst(x.Args[1]) {
 					return "(Array.replicate (Go.idx " + e.expr(x.Args[1]) + ").toNat (0 : UInt8))"
 				}
+				if isBytesLike(T.info.Types[x].Type) && (len(x.Args) == 2 || len(x.Args) == 3) {
+					return e.makeBytes(x)
+				}
 				e.fail(x, "make")
+			case "copy":
+				e.fail(x, "copy in expression position")
 			case "panic":
 				e.fail(x, "panic in expression position")
 			}
@@ -603,12 +627,15 @@ func (e *em) call(x *ast.CallExpr) string {
 					}
 					return "(" + c + ")"
 				}
+				if r, ok := e.foreignCall(x); ok {
+					return r
+				}
 			}
 		}
 	}
 	C, args, inouts := e.callParts(x)
 	if len(inouts) > 0 {
-		e.fail(x, "call with in-out arguments in expression position")
+		return e.callInout(x, C, args, inouts)
 	}
 	c := C.name
 	if len(args) > 0 {
@@ -620,4 +647,37 @@ func (e *em) call(x *ast.CallExpr) string {
 		return t
 	}
 	return "(" + c + ")"
+}
+
+// callInout handles a call with in-out arguments (pointer receiver / pointer parameters) in
+// expression position, e.g. `return digs.fmtE(buf, …)`: the call is hoisted, the updated in-out
+// values are assigned back, and the term is the (tuple of the) ordinary results.
+func (e *em) callInout(x *ast.CallExpr, C *fn, args []string, inouts []ast.Expr) string {
+	if e.inCond > 0 {
+		e.fail(x, "call with in-out arguments in the right operand of && / ||")
+	}
+	nres := C.obj.Type().(*types.Signature).Results().Len()
+	if nres == 0 {
+		e.fail(x, "call without results in expression position")
+	}
+	c := C.name
+	if len(args) > 0 {
+		c += " " + strings.Join(args, " ")
+	}
+	var lines []string
+	e.flush("", &lines)
+	var temps []string
+	for i := 0; i < len(inouts)+nres; i++ {
+		temps = append(temps, e.fresh("r"))
+	}
+	bind := "←"
+	if !C.monadic {
+		bind = ":="
+	}
+	lines = append(lines, fmt.Sprintf("let (%s) %s %s", strings.Join(temps, ", "), bind, c))
+	for i, io := range inouts {
+		e.assignTo(io, temps[i], "", &lines)
+	}
+	e.pre = append(lines, e.pre...)
+	return tuple(temps[len(inouts):])
 }
